@@ -116,9 +116,19 @@ Print Assumptions strlist_write_succeeds.
 
 (* ---- nested maps and lists ------------------------------------------------------------------- *)
 
-(* setMarshaled then getMarshaled, for values nested to any depth: maps (as key-sorted
-   association lists; keys non-empty, at most MaxKeySize bytes and different from the reserved
-   list-size marker key), lists (shorter than 2^31), nils, empty containers, every scalar *)
+(* Whatever setMarshaled accepted, getMarshaled returns: for values nested to any depth - maps
+   (a Go map being represented by its key-sorted association list), lists (shorter than 2^31),
+   nils, empty containers, every scalar in the range of its type.  No condition on the keys: an
+   unusable key (empty, longer than MaxKeySize under a scalar, or the reserved list-size marker
+   key) makes the write fail; it never succeeds with different content. *)
+Theorem container_read_back : forall (an : bool) (v : value) (n : node),
+  Representable v -> entry_node an v = Ok n -> get_node n = v.
+Proof. exact entry_node_read_back_any. Qed.
+Print Assumptions container_read_back.
+
+(* ... and the write is accepted for every well-formed value: keys non-empty, at most MaxKeySize
+   bytes and different from the reserved list-size marker key; encoded scalars within
+   MaxValueSize *)
 Theorem container_roundtrip : forall v : value,
   WfValue v -> exists n, entry_node true v = Ok n /\ node_fits n /\ get_node n = v.
 Proof. exact entry_node_roundtrip. Qed.
@@ -126,7 +136,7 @@ Print Assumptions container_roundtrip.
 
 (* PutMap (nested allowed or not) then GetMap, in a bucket with arbitrary other content *)
 Theorem map_field_roundtrip : forall (c : checker) (name : str) (m : list (str * value)) (an : bool) (b b' : bucket),
-  WfValue (VMap m) -> proceed c name = true ->
+  Representable (VMap m) -> proceed c name = true ->
   apply_op c (OpMap name m an) b = Ok b' ->
   get_map name b' = m /\ get_marshaled name b' = VMap m.
 Proof. exact map_roundtrip. Qed.
@@ -134,7 +144,7 @@ Print Assumptions map_field_roundtrip.
 
 (* PutList then GetList *)
 Theorem list_field_roundtrip : forall (c : checker) (name : str) (l : list value) (b b' : bucket),
-  WfValue (VList l) -> proceed c name = true ->
+  Representable (VList l) -> proceed c name = true ->
   apply_op c (OpList name l) b = Ok b' ->
   get_list name b' = Ok (Some l) /\ get_marshaled name b' = VList l.
 Proof. exact list_roundtrip. Qed.
